@@ -99,11 +99,15 @@ def to_py(x):
     return x
 
 
+LAST = {"wf": None}     # does the last model document meet wf_json (hypothesis of the C06 round-trip theorems)?
+
+
 def model_outcome(m):
     """('ok', eid, doc) | ('reject',) | ('badph',) | ('baduh',) | ('filtered',) | ('unsupported',)"""
     kind, val = m[1][0]
     if kind == "ok":
         d = dict(val[1])
+        LAST["wf"] = d.get("wf")
         try:
             return ("ok", d["eid"], to_py(d["doc"]))
         except Unsupported:
